@@ -116,6 +116,10 @@ def native_supersede(ctx):
         # (the sealed journal is kept on disk by b's unflushed write; a journal that was evicted takes its seqnos with it)
         'clear-in-sealed-journal': ['rotation_threshold 0', 'ks a', 'ks b', 'ks c', 'insert b 6b31 41', 'insert a 6b31 31', 'ingest a 6b32:32', 'clear a', 'insert c 6b31 51', 'rotate c', 'worker_drain'],
         'sealed-journal-deleted-keyspace': ['rotation_threshold 0', 'ks a', 'ks b', 'insert a 6b31 31', 'insert b 6b31 41', 'insert b 6b32 42', 'insert b 6b33 43', 'rotate a', 'worker_drain', 'delete_ks b'],
+        # several keyspaces whose highest seqno lives only in tables (bulk loads right before the close): the counter must clear the highest of them, whichever the
+        # keyspace dictionary happens to yield last (both load orders, four keyspaces)
+        'ingested-four-keyspaces-up': ['ks a', 'ks b', 'ks c', 'ks d', 'ingest a 6b32:32', 'ingest b 6b31:41', 'ingest c 6b31:51', 'ingest d 6b31:61'],
+        'ingested-four-keyspaces-down': ['ks a', 'ks b', 'ks c', 'ks d', 'ingest d 6b31:61', 'ingest c 6b31:51', 'ingest b 6b31:41', 'ingest a 6b32:32'],
         'two-keyspaces-different-marks': ['ks a', 'ks b', 'insert a 6b31 31', 'rotate a', 'worker_drain', 'insert b 6b31 41', 'insert b 6b32 42', 'insert b 6b33 43'],
     }
     last = (False, None, 'not run')
